@@ -24,6 +24,7 @@ import (
 	"io"
 	"io/ioutil"
 	"math"
+	"mime"
 	"mime/multipart"
 	"net/http"
 	"net/textproto"
@@ -195,6 +196,7 @@ func (m *Modifier) ModifyResponse(res *http.Response) error {
 	// Multipart range request.
 	var mpbody bytes.Buffer
 	mpw := multipart.NewWriter(&mpbody)
+	// A boundary the writer refuses leaves its own random boundary in place.
 	mpw.SetBoundary(m.boundary)
 
 	for _, rng := range ranges {
@@ -218,7 +220,7 @@ func (m *Modifier) ModifyResponse(res *http.Response) error {
 
 	res.ContentLength = int64(len(mpbody.Bytes()))
 	res.Body = ioutil.NopCloser(bytes.NewReader(mpbody.Bytes()))
-	res.Header.Set("Content-Type", fmt.Sprintf("multipart/byteranges; boundary=%s", m.boundary))
+	res.Header.Set("Content-Type", mime.FormatMediaType("multipart/byteranges", map[string]string{"boundary": mpw.Boundary()}))
 
 	return nil
 }
